@@ -26,6 +26,12 @@ def group_steps(steps):
         yield label, [s[1] for s in grp]
 
 
+LEGACY_LABELS = {}      # app label -> package (module) name, when an app's
+                        # label differs from its package (set by the engine
+                        # from the spec; production derives it from the
+                        # app module)
+
+
 def d1(sig, steps, db='default', real=None, execute=True):
     """Bare AppMutator: DatabaseState scanned from the real database (never
     pre-registering tables), one AppMutator per run of same-app steps.
@@ -50,7 +56,8 @@ def d1(sig, steps, db='default', real=None, execute=True):
             res.stage = 'generate'
             state = DatabaseState(db, scan=True)
             mutator = AppMutator(app_label=label, project_sig=sig,
-                                 database_state=state, database=db)
+                                 database_state=state, database=db,
+                                 legacy_app_label=LEGACY_LABELS.get(label))
             mutator.run_mutations(muts)
             sql = mutator.to_sql()
             res.sql = (res.sql or []) + list(sql)
